@@ -40,9 +40,13 @@ def plan(tier, seed):
     rng = P.rng("cg")
     for i in range(500 if quick else 8000):
         n = int(rng.integers(1, 13))
+        big = i % 7 == 6           # beyond the stated range: dimension 13..40, more updates
+        if big:
+            n = int(rng.integers(13, 41))
         P.add("cg", n=n, cplx=bool(rng.random() < 0.5),
+              bs=pick(rng, [1, 1, 1, 1e8, 1e-10]), ms=pick(rng, [1, 1, 1, 1e4, 1e-4]),
               spec=pick(rng, ["geo", "geo", "cluster", "repeat", "identity-ish"]),
-              cond=float(10 ** rng.uniform(0, 3)),
+              cond=float(10 ** rng.uniform(0, 2 if big else 3)),
               x0=pick(rng, ["zero", "rand"]),
               P=pick(rng, ["none", "none", "jacobi", "hpd", "inverse", "identity", "buffered"]),
               decoy=bool(rng.random() < 0.3),
@@ -120,9 +124,11 @@ def run_cg(case):
     rng = rng_for(case)
     n, cplx = case["n"], case["cplx"]
     dt = np.complex128 if cplx else np.float64
-    M = hpd(rng, n, cplx, case["spec"], case["cond"])
-    b = crandn(rng, [n], dt)
-    x0 = np.zeros(n, dt) if case["x0"] == "zero" else crandn(rng, [n], dt)
+    bs, ms = float(case.get("bs", 1)), float(case.get("ms", 1))
+    # CG is invariant under scaling of the system and of the right-hand side: same claims
+    M = hpd(rng, n, cplx, case["spec"], case["cond"]) * ms
+    b = crandn(rng, [n], dt) * bs
+    x0 = np.zeros(n, dt) if case["x0"] == "zero" else crandn(rng, [n], dt) * (bs / ms)
     if case["P"] in ("none", "identity"):
         Pm = np.eye(n, dtype=dt)
     elif case["P"] == "buffered":
@@ -173,7 +179,7 @@ def run_cg(case):
     sig = "|".join(map(str, ["cg", "c" if cplx else "r", case["spec"],
                              "k%d" % int(np.log10(case["cond"])), case["x0"], case["P"],
                              "linop" if (case["A"] == "linop" or col) and col else "func",
-                             case["mi"], case["tol"], case["layout"], "n%d" % min(n, 3),
+                             case["mi"], case["tol"], case["layout"], "n%d" % (min(n, 3) if n < 13 else 13), "scaled" if (bs != 1 or ms != 1) else "",
                              "lay%d" % (case["rs"][-1] % 4), "decoy" if case.get("decoy") else ""]))
     wit = dict(case)
     alg = sp.alg.ConjugateGradient(Aop, bb, x, P=Pop, max_iter=mi, tol=case["tol"])
@@ -187,6 +193,7 @@ def run_cg(case):
             crandn(rng, shape, dt), np.zeros(shape, dt), max_iter=mi + 3)
     xstar = np.linalg.solve(M, b)
     e0 = anorm(M, x0 - xstar)
+    unit = anorm(M, xstar) + anorm(M, x0)       # problem scale for the absolute floors
     hist = []
     nupd = 0
     while not alg.done():
@@ -244,7 +251,7 @@ def run_cg(case):
         if model <= 1e-4:
             worst = max(worst, rel)
             worst_model = max(worst_model, rel / max(model, 1e-9))
-            if not dk <= max(model, 1e-9) * e0 + 1e-12:
+            if not dk <= max(model, 1e-9) * e0 + 1e-12 * unit:
                 return violated(sig, "iterate %d is not the Krylov-optimal one: A-norm "
                                 "distance to the reference %.3g (bound %.3g, e0 %.3g)" % (
                                     k, dk, max(model, 1e-9) * e0, e0), wit, mech="krylov",
@@ -252,7 +259,7 @@ def run_cg(case):
         else:
             skipped += 1
             drift_seen = max(drift_seen, rel / model)
-        if not ek <= prev * (1 + 1e-9) + 1e-13 * e0 + 1e-14:
+        if not ek <= prev * (1 + 1e-9) + 1e-13 * e0 + 1e-14 * unit:
             return violated(sig, "A-norm error increased at update %d: %.6g -> %.6g" % (
                 k, prev, ek), wit, mech="monotone")
         prev = ek
@@ -297,12 +304,12 @@ def run_cg(case):
     if mi >= n and case["tol"] == 0.0 and nupd >= n and 1e-12 * kap ** (n / 2.0) <= 1e-4:
         en = anorm(M, hist[n - 1]["x"] - xstar)
         checks += 1
-        if not en <= max(1e-12 * kap ** (n / 2.0), 1e-9) * e0 + 1e-12:
+        if not en <= max(1e-12 * kap ** (n / 2.0), 1e-9) * e0 + 1e-12 * unit:
             return violated(sig, "no finite termination: error %.3g after n=%d updates (e0 "
                             "%.3g)" % (en, n, e0), wit, mech="finite-termination")
     if case["tol"] == 0.0 and nupd < mi:
         # stopped early with tol = 0: only legitimate at the exact solution
-        if prev > 1e-6 * kap * e0 + 1e-12 and not any(
+        if prev > 1e-6 * kap * e0 + 1e-12 * unit and not any(
                 hh["npd"] for hh in hist):
             return violated(sig, "stopped after %d < max_iter=%d updates with tol=0 at error "
                             "%.3g" % (nupd, mi, prev), wit, mech="early-stop")
